@@ -23,7 +23,13 @@ func init() {
 		}
 		genMix(p, r, "C05")
 	}
-	generators["C08"] = func(p *Plan, r *RNG) { withRace(p, r, 5, func() { genMix(p, r, "C08") }) }
+	generators["C08"] = func(p *Plan, r *RNG) {
+		if r.Chance(1, 10) {
+			genC08Rebind(p, r)
+			return
+		}
+		withRace(p, r, 5, func() { genMix(p, r, "C08") })
+	}
 	generators["C19"] = func(p *Plan, r *RNG) {
 		if r.Chance(1, 12) {
 			genC19Reservation(p, r)
@@ -35,6 +41,64 @@ func init() {
 		}
 		withRace(p, r, 6, func() { genMix(p, r, "C19") })
 	}
+}
+
+// genC08Rebind: bindings that expire under a permission that lives on (PermissionTimeout longer
+// than ChannelBindTimeout, or the permission refreshed meanwhile), and whose numbers and peers
+// are then bound the other way round. Every datagram a peer sends afterwards comes with the
+// number that peer has now - or as a Data indication while it has none.
+func genC08Rebind(p *Plan, r *RNG) {
+	baseSrvConfig(p, r)
+	p.Flavor = "rebind-after-expiry"
+	if r.Chance(1, 4) {
+		p.Cfg.Listener = "tcp"
+	}
+	ct := r.PickInt([]int{4, 12})
+	p.Cfg.ChanTimeoutS = ct
+	p.Cfg.PermTimeoutS = r.PickInt([]int{60, 300, 600})
+	addClients(p, r, 1)
+	c := p.Clients[0].ID
+	p.Peers = []PeerSpec{{ID: "p1", Addr: "10.0.2.1:5000"}, {ID: "p2", Addr: r.Pick([]string{"10.0.2.1:5017", "10.0.2.2:5017"})}, {ID: "p3", Addr: "10.0.2.3:5034"}}
+	add := func(o Op) { p.Ops = append(p.Ops, o) }
+	n1, n2 := 0x4000+r.Intn(3), 0x4003+r.Intn(3)
+	add(Op{Actor: c, Kind: "allocate", At: gap(int64(r.Range(10, 200)) * ms), A: OpArgs{Lifetime: -1}})
+	add(Op{Actor: c, Kind: "chanbind", At: gap(200 * ms), A: OpArgs{Peer: p.Peers[0].Addr, Chan: n1}})
+	if r.Chance(1, 2) {
+		add(Op{Actor: c, Kind: "chanbind", At: gap(100 * ms), A: OpArgs{Peer: p.Peers[1].Addr, Chan: n2}})
+	}
+	for k := r.Range(1, 3); k > 0; k-- {
+		add(Op{Actor: r.Pick([]string{"p1", "p2"}), Kind: "peer_send", At: gap(int64(r.Range(100, 900)) * ms), A: OpArgs{Target: c, Len: r.Range(9, 200)}})
+	}
+	if r.Chance(1, 2) {
+		// the permission is renewed on its own meanwhile
+		add(Op{Actor: c, Kind: "createperm", At: gap(int64(ct) * sec / 2), A: OpArgs{Peer: p.Peers[0].Addr}})
+		add(Op{Actor: "", Kind: "wait", At: gap(int64(ct)*sec/2 + int64(r.Range(300, 3000))*ms)})
+	} else {
+		add(Op{Actor: "", Kind: "wait", At: gap(int64(ct)*sec + int64(r.Range(300, 3000))*ms)})
+	}
+	// the numbers change hands
+	switch r.Intn(3) {
+	case 0:
+		add(Op{Actor: c, Kind: "chanbind", At: gap(100 * ms), A: OpArgs{Peer: p.Peers[1].Addr, Chan: n1}})
+		add(Op{Actor: c, Kind: "chanbind", At: gap(100 * ms), A: OpArgs{Peer: p.Peers[0].Addr, Chan: n2}})
+	case 1:
+		add(Op{Actor: c, Kind: "chanbind", At: gap(100 * ms), A: OpArgs{Peer: p.Peers[2].Addr, Chan: n1}})
+	case 2:
+		add(Op{Actor: c, Kind: "chanbind", At: gap(100 * ms), A: OpArgs{Peer: p.Peers[0].Addr, Chan: n2}})
+	}
+	for k := r.Range(2, 5); k > 0; k-- {
+		g := gap(int64(r.Range(100, 900)) * ms)
+		switch r.Intn(4) {
+		case 0, 1:
+			add(Op{Actor: r.Pick([]string{"p1", "p1", "p2", "p3"}), Kind: "peer_send", At: g, A: OpArgs{Target: c, Len: r.Range(9, 200)}})
+		case 2:
+			add(Op{Actor: c, Kind: "chandata", At: g, A: OpArgs{Chan: r.PickInt([]int{n1, n2}), Len: r.Range(9, 200)}})
+		case 3:
+			add(Op{Actor: c, Kind: "send", At: g, A: OpArgs{Peer: p.Peers[r.Intn(3)].Addr, Len: r.Range(9, 200)}})
+		}
+	}
+	add(Op{Actor: c, Kind: "binding", At: gap(300 * ms)})
+	p.QuietNS = 5 * sec
 }
 
 var chanEdge = []int{0, 1, 0x3FFF, 0x4000, 0x4001, 0x4002, 0x7FFE, 0x7FFF, 0x8000, 0xFFFF, 0x5000}
